@@ -59,6 +59,9 @@ fn main() {
                 let (i, j) = (args[q + 1].parse().unwrap_or(0), args[q + 2].parse().unwrap_or(0));
                 std::process::exit(c12::seq_child(i, j));
             }
+            if let Some(q) = args.iter().position(|a| a == "--chain") {
+                std::process::exit(c12::chain_child(args[q + 1].parse().unwrap_or(0), &args[q + 2], &args[q + 3]));
+            }
             c12::run_check(replay)
         }
         "C07" => c07::run_check(replay),
